@@ -323,6 +323,15 @@ Call(e) ==
             Cardinality({c2 \in Colls : mliveOf(c2) # liveWant(c2)
                 /\ Fail((IF c2 = c THEN {"C08"} ELSE {"C08", "C11"}), e, <<"multi-collection-feed", c2, Class(pre)>>,
                         BriefEvs(liveWant(c2)), BriefEvs(mliveOf(c2)))})
+        \* ---- a keys-only feed registered before the full feed gets the same events without body and xattrs (C08)
+        KeyOnly(v) == [v EXCEPT !.body = NoBody, !.xa = NoXa, !.xf = FALSE]
+        kWant(c2) == IF liveWant(c2) = <<>> THEN <<>> ELSE <<KeyOnly(liveWant(c2)[1])>>
+        kliveOf(c2) == IF Len(e.klive) = 0 THEN kWant(c2)
+                       ELSE EvsOf(e.klive[CHOOSE i \in 1..Len(e.klive) : e.klive[i].c = c2].evs)
+        fKlive ==
+            IF e.skiplive THEN 0 ELSE
+            Cardinality({c2 \in Colls : kliveOf(c2) # kWant(c2)
+                /\ Fail({"C08"}, e, <<"keys-only-feed", c2, Class(pre)>>, BriefEvs(kWant(c2)), BriefEvs(kliveOf(c2)))})
         \* ---- backfill: a faithful snapshot, equal to what live events say (C09)
         fDump ==
             IF e.skiplive THEN 0 ELSE
@@ -370,7 +379,7 @@ Call(e) ==
     /\ dumps' = nd
     /\ clock' = IF mut /\ regular /\ ~isPurge /\ postObs.cas > clock THEN postObs.cas ELSE clock
     /\ start' = start
-    /\ nfail' = nfail + fStep + fRev + fFresh + fReaders + fOthers + fLive + fMlive + fDump + fDump2 + (IF isPurge THEN 0 ELSE fAux + fFresh2)
+    /\ nfail' = nfail + fStep + fRev + fFresh + fReaders + fOthers + fLive + fMlive + fKlive + fDump + fDump2 + (IF isPurge THEN 0 ELSE fAux + fFresh2)
     /\ evlog' = IF mut /\ ~isPurge THEN [evlog EXCEPT ![c] = Append(@, <<e.i, EventOf(k, post, CollId(c))>>)] ELSE evlog
     /\ verlog' = [c2 \in Colls |->
                     LET ks == {k2 \in Keys : newDocs[c2][k2] # docs[c2][k2]} IN
